@@ -570,7 +570,9 @@ def rule_t5(ctx):
         out = []
         for b, t in body.calls():
             if mir.last_seg(mir.callee(t) or "") == seg and "HashSet" in (mir.callee(t) or ""):
-                if any("currently_being_checked" in p for (r, p) in body.trace_operand(t["args"][0])):
+                # the set of functions being checked: the HashSet inside the TypedFns that is threaded through the checker (whatever the
+                # field is called)
+                if any(r[0] == "arg" and "TypedFns" in body.locals[r[1]]["ty"] and p for (r, p) in body.trace_operand(t["args"][0])):
                     out.append(b)
         return out
     contains, insert, remove = guard_calls("contains"), guard_calls("insert"), guard_calls("remove")
